@@ -68,6 +68,15 @@ def gen_T17():
     return 'src/utils/file.py + every AtomicFile call site under src/ and plugins/', out
 
 
+def _swallows_oserror(t):
+    """does this try statement swallow an OSError raised in its body?  The FIRST handler that matches an OSError decides:
+    it swallows unless it re-raises."""
+    for h in t.handlers:
+        if h.type is None or any(nm.split('.')[-1] in SWALLOWS for nm in handler_names(h)):
+            return not any(isinstance(x, ast.Raise) for x in ast.walk(h))
+    return False
+
+
 def _only_call(stmts, name):
     """the statement list is exactly [self.<name>()]"""
     return (len(stmts) == 1 and isinstance(stmts[0], ast.Expr) and isinstance(stmts[0].value, ast.Call)
@@ -151,9 +160,7 @@ def call_sites():
                         if isinstance(c2, ast.Call) and ast.unparse(c2.func) in (var + '.write', var + '.writelines'):
                             child = c2
                             for a in ancestors(c2):
-                                if isinstance(a, ast.Try) and any(child is x for x in a.body) and any(
-                                        (h.type is None or any(nm in SWALLOWS for nm in handler_names(h)))
-                                        and not any(isinstance(x, ast.Raise) for x in ast.walk(h)) for h in a.handlers):
+                                if isinstance(a, ast.Try) and any(child is x for x in a.body) and _swallows_oserror(a):
                                     swallow.append(site + ' [write error swallowed]')
                                     swallow_lines.setdefault(fn, set()).add(c2.lineno)
                                 if a is scope:
